@@ -176,6 +176,9 @@ def build_session(args):
                             else info, "dot": dot2})
 
     for kind, payload in specs:
+        if kind == "raw":
+            add_view(payload, "sweep over the EvtGen names")
+            continue
         if kind == "dec":
             src, mother = payload[0], payload[1]
             cz = decio.Concretiser(rng, readable=True)
@@ -263,6 +266,28 @@ def run(tier, seed, replay_path=None):
                 specs.append(("cls", rng.choice(chains)))
             else:
                 specs.append(("cls", random_chain(rng, 6) if rng.random() < 0.8 else shaped_chain(rng, rng.choice(["wide", "deep"]))))
+        # a sweep over the whole EvtGen name table (quick: a fifth of it, rotating with the seed): every name once as a cell,
+        # every tenth one decaying - names whose HTML spelling is special (primes, bars, sub- and superscripts, slashes)
+        # are not left to chance
+        evt = sorted(n for n in decio.pdg_tables()["evt"] if " " not in n)
+        seen_html, uniq = set(), []
+        for n in evt:
+            h = html_of(n)
+            if h not in seen_html and n != "B0":
+                seen_html.add(h)
+                uniq.append(n)
+        for part in (range(5) if deep else [seed % 5]):
+            names = uniq[part::5]
+            entries = []
+            for j in range(0, len(names) - 2, 6):
+                fs = []
+                for k, n in enumerate(names[j:j + 6]):
+                    if (j + k) % 10 == 9 and j + k + 2 < len(names):
+                        fs.append({n: [{"bf": 1.0, "fs": [names[j + k + 1], names[j + k + 2]], "model": "PHSP", "model_params": ""}]})
+                    else:
+                        fs.append(n)
+                entries.append({"bf": round(1.0 / (j // 6 + 2), 6), "fs": fs, "model": "PHSP", "model_params": ""})
+            specs.append(("raw", {"B0": entries}))
         sessions_args = [(i, specs[i:i + 3], seed * 29 + i) for i in range(0, len(specs), 3)]
         sessions = pmap(build_session, sessions_args, chunk=4)
         sessions = [s for s in sessions if s["views"]]
